@@ -259,9 +259,18 @@ THEOREMS = ["Dashu.Props.C09." + n for n in [
     "and_with_nonneg_fits", "ubig_and_or_xor", "shl_exact", "ibig_shl_exact", "shr_exact", "ibig_shr_floor",
     "ibig_shr_asis_outside_defect", "ibig_shr_asis_counterexample", "ubig_bit", "ibig_bit", "trailing_zeros",
     "trailing_count_unique", "trailing_ones", "trailing_ones_asis_outside_defect", "trailing_ones_asis_counterexample",
-    "ones_exact", "ones_asis_counterexample", "clear_high_bits", "split_bits", "bit_len"]]
+    "ones_exact", "ones_asis_counterexample", "clear_high_bits", "split_bits", "bit_len"]] + [
+    "Dashu.Props.GenBits." + n for n in ["gen_ibig_bitand", "gen_ibig_bitor", "gen_ibig_bitxor",
+                                         "gen_ibig_bitand_bits", "gen_ibig_bitor_bits", "gen_ibig_bitxor_bits"]]
+
+# Tie A: the IBig bit-operator sign tables are regenerated from integer/src/bits.rs on every run
+# (lean/Dashu/Gen/Glue.lean) and proved equal to the same specification as the hand model's tables
+USES_GEN = True
+GEN_PROPS = ["Dashu.Props.GenBits"]
+GEN_AUDIT = ["Dashu.Audit.GenBits"]
 
 LEVEL_TEXT = ("Machine-checked Lean 4 theorems, for every word size and operand length, that the sign-case tables of & | ^ ! "
+              "(also as regenerated from integer/src/bits.rs on every run) "
               "(magnitude-minus-one tricks over the unsigned word loops), <<, >> (IBig: floor division via the shifted-out-bits "
               "correction), bit tests on both signs, trailing_zeros/trailing_ones scans, ones(n), clear_high_bits, split_bits and "
               "bit_len compute exactly what infinite two's complement prescribes (stated bit by bit with Mathlib's Int.testBit, "
